@@ -172,6 +172,13 @@ func (e *Engine) runPath(s *State, fn *ssa.Function, fc *FuncContract, rep *Func
 	for i, c := range fc.Ensures {
 		g := s.evalClause(c, all, s.entry)
 		s.obligeSplit("post", "post:"+clauseLabel(c, i), g)
+		if s.eng.reachAntecedents && c.Ante != nil {
+			// `A ==> B`: audit that A holds at some return (otherwise the clause says nothing).  Posed like a canary:
+			// "not A" must be refutable.
+			a := s.evalClause(c.Ante, all, s.entry)
+			ro := s.oblige("reach", "reach:"+clauseLabel(c, i), Not(a))
+			ro.Expect = "sat"
+		}
 	}
 	for i, c := range fc.Canaries {
 		g := s.evalClause(c, all, s.entry)
